@@ -9,4 +9,6 @@ Cd "_extract_waitn".
 Separate Extraction WaitNModel.step WaitNModel.do_act WaitNModel.init WaitNModel.clock WaitNModel.nw_set_len
   WaitNReplay.world0 WaitNReplay.init_note WaitNReplay.init_ctr WaitNReplay.push_op WaitNReplay.clock_to
   WaitNReplay.pc_of WaitNReplay.prog_len WaitNReplay.last_result WaitNReplay.sem_of WaitNReplay.any_on_list
-  WaitNReplay.done_of WaitNReplay.idx_ready_of WaitNReplay.dl_seen_of.
+  WaitNReplay.done_of WaitNReplay.idx_ready_of WaitNReplay.dl_seen_of
+  WaitNReplay.count_of WaitNReplay.in_call_b WaitNReplay.heap_freed_b WaitNReplay.rec_dead_b
+  WaitNReplay.has_mu WaitNReplay.held_of WaitNReplay.unlocked_of WaitNReplay.holder_is.
